@@ -566,6 +566,20 @@ def job_circuit_histories(tier, rng):
             if not from_repo(e):
                 raise
             chk(False, step='torch wrapper exception', exception=f'{type(e).__name__}: {e}')
+    # documented argument forms: a single control / target given as an int
+    import numqi.sim.state as _st
+    for t in range(6):
+        try:
+            n = 3; q = _rc(rng, 2 ** n); U1 = _rc(rng, 2, 2)
+            ctl, tgt = (int(x) for x in rng.choice(n, size=2, replace=False))
+            ref = SS.ctrl_embed(U1, [ctl], [tgt], n) @ q
+            chk(np.abs(_st.apply_control_n_gate(q, U1, ctl, [tgt]) - ref).max() < 1e-12 and np.abs(_st.apply_control_n_gate(q, U1, {ctl}, (tgt,)) - ref).max() < 1e-12
+                and np.abs(_st.apply_gate(q, U1, tgt) - SS.embed(U1, [tgt], n) @ q).max() < 1e-12, step='int control / target forms', control=ctl, target=tgt)
+        except Exception as e:
+            from vf.prover import from_repo
+            if not from_repo(e):
+                raise
+            chk(False, step='int forms exception', exception=f'{type(e).__name__}: {e}')
     # four-qubit gates on every ordered choice of 4 out of 4 / 5 qubits (a sample of the 24 / 120 orders)
     import itertools as _it
     for n in (4, 5):
